@@ -110,7 +110,7 @@ def validate(sysd):
         seen.add(sig)
         assert r["k"] > 0
     assert used == set(range(n)), "species without reaction"
-    assert len(sysd["c0"]) == n and all(c >= 0 for c in sysd["c0"])
+    assert len(sysd["c0"]) == n and all(c >= 0 for c in sysd["c0"]) and any(c > 0 for c in sysd["c0"])
     ts = [sysd["t0"]] + list(sysd["times"])
     assert all(b > a for a, b in zip(ts, ts[1:])), "times not increasing"
     assert sorted(sysd["subst"]["order"]) == list(range(n))
